@@ -5,7 +5,7 @@ CHECK = {'rule': 'rapid-generated initial remote trees and cache histories (all 
  'assumptions': ['merged-tree model of fsmodel is the contract', 'ops invalid on the merged view are not generated'],
  'essential_labels': {'all': ['remove-of-remote-node', 'dir-copy', 'via-child-view']},
  'tiers': {'quick': [{'test': '^TestProp$', 'checks': 1500, 'shards': 6, 'timeout': 240}],
-           'thorough': [{'test': '^TestProp$', 'checks': 25000, 'shards': 16, 'timeout': 3000}]}}
+           'thorough': [{'test': '^TestProp$', 'checks': 12000, 'shards': 16, 'timeout': 3000}]}}
 
 TEXT = {'technique': 'model-based stateful property testing (rapid): cache histories vs. merged-tree model, every result compared and the whole merged view '
               '(also through child views) walked after every step',
